@@ -513,12 +513,12 @@ def r8(ctx):
             return pl[1] if pl[0] == "off" else ("var" if pl[0] in ("rest+", "?") else None)
 
         def classify(inst, E, st):
-            if inst.op == "store" and vf.root_of(vf.expr(fn, inst["ptr"])) == ("arg", 0):
+            if inst.op == "store" and vf.root_of(E.path_expr(inst["ptr"])) == ("arg", 0):      # the address as chosen on this path
                 ve = vf.expr(fn, inst["val"])
                 if ve[0] == "call" and ve[1] in ("lrtr_convert_long", "lrtr_convert_short"):
                     src = ve[3][1]
                     same = src == ("load", vf.expr(fn, inst["ptr"]))
-                    o = off_of(vf.expr(fn, inst["ptr"]))
+                    o = off_of(E.path_expr(inst["ptr"]))
                     conv.add((o, inst["size"]) if same else ("mismatch", vf.show(vf.expr(fn, inst["ptr"]))))
             if inst.op == "call" and inst.callee in HELP:
                 src = vf.expr(fn, inst.args[0])
